@@ -57,6 +57,11 @@ def execute(c):
 
         da = xr.DataArray(pix, dims=("time", "y", "x"), coords={"time": pd.date_range("2000-01-01", periods=pix.shape[0], freq="10D")}, attrs={"nodata": ND})
         zn = xr.DataArray(zones, dims=("y", "x"), attrs={"nodata": ZND})
+        # stored layout of the cube: time first / last / middle (the zone raster stays (y, x))
+        order = {1: ("y", "x", "time"), 2: ("y", "time", "x")}.get(c["tid"] % 5)
+        if order and c["api"] != "accessor_dask_joint":
+            da = da.transpose(*order)
+            c["layout"] = list(order)
         if c["api"] in ("accessor_dask", "accessor_dask_joint"):
             da = da.chunk({"time": 1})
         if c["api"] == "accessor_dask_joint":
